@@ -943,6 +943,111 @@ def interrupted_pipe_writes(ctx):
                       "number %d%s" % (len(short), short[0], len(got), len(packets), i, ("; " + repr(err[0])[:120]) if err else ""), wit)
 
 
+def several_channels_at_once(ctx):
+    """Several channels in ONE process, each with its own writer and reader thread (what the connection threads of a threaded
+    server are): every channel must deliver exactly its own sequence. Nothing the channels have in common (class attributes,
+    module state) may carry one channel's frame into another's. The threads are made to interleave INSIDE Channel.send / recv by
+    suspension injected at the source lines of those two functions (sys.monitoring LINE -> give up the GIL): only suspension, no
+    state is touched, so every interleaving produced is one the OS could produce."""
+    import random
+    import socket
+    import sys
+    import threading
+    from rpyc.core.channel import Channel
+    from rpyc.core.stream import SocketStream
+    mon = getattr(sys, "monitoring", None)
+    tool = None
+    if mon is not None:
+        for tid in (4, 3, 5, 2):
+            try:
+                mon.use_tool_id(tid, "rv-c05-yield")
+                tool = tid
+                break
+            except ValueError:
+                continue
+    inj = [0]
+    irng = random.Random(ctx.seed)
+
+    def on_line(code, line):
+        if irng.random() < 0.5:
+            inj[0] += 1
+            time.sleep(0)
+    codes = [Channel.send.__code__, Channel.recv.__code__]
+    if tool is not None:
+        mon.register_callback(tool, mon.events.LINE, on_line)
+        for c in codes:
+            mon.set_local_events(tool, c, mon.events.LINE)
+    old_si = sys.getswitchinterval()
+    sys.setswitchinterval(1e-5)
+    nchan, npk = 4, (150 if ctx.quick else 1500)
+    rng = random.Random(ctx.seed * 7 + 1)
+    plans, chans, got, errs = [], [], [], []
+    try:
+        for c in range(nchan):
+            s1, s2 = socket.socketpair()
+            compress = (c % 2 == 0)
+            chans.append((Channel(SocketStream(s1), compress=compress), Channel(SocketStream(s2), compress=compress)))
+            # sizes that give different headers: tiny, around the compression threshold, a few thousand bytes; compressible or not
+            seq = []
+            for k in range(npk):
+                n = rng.choice([0, 1, 7, 10, 100, 2999, 3000, 3001, 5000, 9000])
+                seq.append(payload(n, rng.choice(("rnd", "rep")), rng.randrange(1000)))
+            plans.append(seq)
+            got.append([])
+            errs.append([])
+
+        def writer(c):
+            try:
+                for p in plans[c]:
+                    chans[c][0].send(p)
+            except Exception as e:
+                errs[c].append("writer: %s" % excname(e))
+
+        def reader(c):
+            try:
+                for _ in plans[c]:
+                    if not chans[c][1].poll(20):
+                        errs[c].append("reader: nothing arrived within 20 s")
+                        return
+                    got[c].append(chans[c][1].recv())
+            except Exception as e:
+                errs[c].append("reader: %s" % excname(e))
+        ths = [threading.Thread(target=f, args=(c,), daemon=True, name="c05-multi-%s%d" % (f.__name__, c)) for c in range(nchan) for f in (writer, reader)]
+        for t in ths:
+            t.start()
+        deadline = time.time() + 120
+        for t in ths:
+            t.join(max(0.1, deadline - time.time()))
+        stuck = [t.name for t in ths if t.is_alive()]
+    finally:
+        sys.setswitchinterval(old_si)
+        if tool is not None:
+            for c in codes:
+                mon.set_local_events(tool, c, 0)
+            mon.register_callback(tool, mon.events.LINE, None)
+            mon.free_tool_id(tool)
+        for a, b in chans:
+            for x in (a, b):
+                try:
+                    x.close()
+                except Exception:
+                    pass
+    ctx.count("concurrent_channel_suspensions_injected", inj[0])
+    wit = dict(family="several-channels-at-once", channels=nchan, packets_per_channel=npk, seed=ctx.seed)
+    bad = False
+    for c in range(nchan):
+        if got[c] != plans[c] or errs[c]:
+            bad = True
+            i = next((k for k, (x, y) in enumerate(zip(got[c], plans[c])) if x != y), len(got[c]))
+            ctx.violation("C05/several-channels/sequence-differs", "with %d channels used by their own threads at the same time, channel %d received %d of %d packets; "
+                          "the first wrong one is number %d; %r" % (nchan, c, len(got[c]), len(plans[c]), i, errs[c][:2]), dict(wit, channel=c))
+            break
+    if stuck and not bad:
+        ctx.inconclusive("several-channels scenario: threads %r still running after 120 s" % (stuck,))
+    ctx.count("concurrent_channel_packets", sum(len(g) for g in got))
+    ctx.case(("several-channels", nchan), nontrivial=True)
+
+
 def closed_stays_closed(ctx):
     """'a transport that ends yields EOFError at the reader or writer and a closed stream' - and stays that way: a channel that
     was closed must not come back to life when the process opens new descriptors (which get the numbers just released), and a
@@ -1018,6 +1123,7 @@ def run(ctx):
     if first:
         closed_stays_closed(ctx)
         interrupted_pipe_writes(ctx)
+        several_channels_at_once(ctx)
     small, large = sizes_table()
     table = set(small + large)
     zc = []
